@@ -45,3 +45,44 @@ func G1(a int) int { Counter++; return -1100 - a }
 
 //go:noinline
 func G2(a int) int { Counter++; return -1200 - a }
+
+// PHSink defeats dead-code elimination in the placeholders.
+var PHSink int
+
+// PH1 is an origin placeholder with a body large enough to hold a relocated prologue.
+//
+//go:noinline
+func PH1(a int) int {
+	s := 0
+	for i := 0; i < a; i++ {
+		s += i*3 + a
+		if s > 1000 {
+			s -= 7
+		}
+		PHSink += s
+	}
+	for i := 0; i < a; i++ {
+		s ^= i*5 + 1
+		PHSink -= s
+	}
+	return s - 424242
+}
+
+// PH2 is a second origin placeholder.
+//
+//go:noinline
+func PH2(a int) int {
+	s := 1
+	for i := 0; i < a; i++ {
+		s += i*7 + a
+		if s > 2000 {
+			s -= 11
+		}
+		PHSink += s
+	}
+	for i := 0; i < a; i++ {
+		s ^= i*9 + 3
+		PHSink -= s
+	}
+	return s - 434343
+}
